@@ -356,7 +356,7 @@ open Lumina.Spec.C32 (Known Sent specSends specAnswers specScheduleProgress spec
 
 def knownOf (r : Rec) : Known :=
   { id := r.id, sends := r.sends, answered := decide (1 ≤ r.answers), closed := r.closed,
-    waiting := r.phase == .pending }
+    waiting := r.phase == .pending, inflight := r.phase == .inflight }
 
 def sentOf : Out → Option Sent
   | .sent id _ _ _ p => some { id := id, toConnected := p.connected, toArchival := p.archival }
@@ -370,7 +370,7 @@ def answeredOf : Out → Option Nat
 def knownFor (s : State) (ev : Ev) : List Known :=
   s.recs.map knownOf ++
     (match ev with
-     | .request _ => [{ id := s.recs.length, sends := 0, answered := false, closed := false, waiting := false }]
+     | .request _ => [{ id := s.recs.length, sends := 0, answered := false, closed := false, waiting := false, inflight := false }]
      | _ => [])
 
 theorem kindOk_connected (k : Kind) (p : Peer) (h : kindOk k p = true) : p.connected = true := by
@@ -750,5 +750,162 @@ theorem outcome_settles (r : Rec) (res : Res) (hi : RInv r) (hp : r.phase = .inf
     split
     · rename_i hc; simp [hc]
     · simp; omega
+
+/-! ## what the callers are told -/
+
+open Lumina.Spec.C32 (AnsKind specOutcomeAnswers specRequestAnswers specStopAnswers specQuietStep)
+
+def kindOfAnswer : Answer → AnsKind
+  | .ok => .ok | .headerNotFound => .headerNotFound | .invalidResponse => .invalidResponse
+  | .invalidRequest => .invalidRequest | .outboundFailure => .outboundFailure | .requestCancelled => .requestCancelled
+
+def answerPairOf : Out → Option (Nat × AnsKind)
+  | .sent _ _ _ _ _ => none
+  | .answer id a => some (id, kindOfAnswer a)
+
+def resKind (res : Res) : AnsKind := kindOfAnswer (answerOf res)
+
+theorem filterMap_flatten' {α β} (g : α → Option β) (ls : List (List α)) :
+    ls.flatten.filterMap g = (ls.map (List.filterMap g)).flatten := by
+  induction ls with
+  | nil => rfl
+  | cons l ls ih => simp [List.filterMap_append, ih]
+
+theorem flatten_all_nil {α β} (f : α → List β) (l : List α) (h : ∀ x ∈ l, f x = []) : (l.map f).flatten = [] := by
+  induction l with
+  | nil => rfl
+  | cons x xs ih => simp [h x (by simp), ih (fun y hy => h y (by simp [hy]))]
+
+/-- when only the record with id `i` can emit anything, the step's outputs are that record's -/
+theorem flatten_single {β} (f : Rec → List β) (i : Nat) : ∀ (recs : List Rec), (recs.map (·.id)).Nodup →
+    (∀ r ∈ recs, r.id ≠ i → f r = []) →
+    (recs.map f).flatten = (match recs.find? (fun r => r.id == i) with | some r => f r | none => []) := by
+  intro recs
+  induction recs with
+  | nil => intro _ _; rfl
+  | cons x xs ih =>
+    intro hnd hz
+    simp only [List.map_cons, List.nodup_cons] at hnd
+    simp only [List.map_cons, List.flatten_cons, List.find?_cons]
+    by_cases hx : x.id = i
+    · have hrest : (xs.map f).flatten = [] := by
+        apply flatten_all_nil
+        intro y hy
+        apply hz y (by simp [hy])
+        intro hyi
+        apply hnd.1
+        rw [List.mem_map]
+        exact ⟨y, hy, by rw [hyi, hx]⟩
+      simp [hx, hrest]
+    · have hb : (x.id == i) = false := by simp [hx]
+      rw [hz x (by simp) hx, hb]
+      simpa using ih hnd.2 (fun r hr => hz r (by simp [hr]))
+
+theorem find_known_map (recs : List Rec) (i : Nat) :
+    (recs.map knownOf ++ []).find? (fun k => k.id == i) = (recs.find? (fun r => r.id == i)).map knownOf := by
+  induction recs with
+  | nil => rfl
+  | cons x xs ih =>
+    simp only [List.map_cons, List.cons_append, List.find?_cons]
+    by_cases hx : x.id = i
+    · simp [knownOf, hx]
+    · have hb : (x.id == i) = false := by simp [hx]
+      have hb' : ((knownOf x).id == i) = false := by simp [knownOf, hx]
+      rw [hb, hb']
+      exact ih
+
+/-- **the first valid response or the final error** -/
+theorem outcome_answers_spec (s : State) (id att : Nat) (res : Res) (h : SInv s) :
+    specOutcomeAnswers (knownFor s (.outcome id att res)) id
+      (match s.recs.find? (fun r => r.id == id) with | some r => att == r.sends | none => false)
+      (resKind res) ((step s (.outcome id att res)).2.filterMap answerPairOf) = true := by
+  obtain ⟨extra, ho, _, hextra⟩ := step_outs s (.outcome id att res)
+  simp only at hextra
+  rw [ho, hextra, List.append_nil, filterMap_flatten', List.map_map]
+  have hfs := flatten_single (fun r => (stepRec (.outcome id att res) r).2.filterMap answerPairOf) id s.recs (ids_nodup s h)
+    (by intro r _ hne; simp [stepRec, hne])
+  have hcomp : (List.filterMap answerPairOf ∘ fun x => (stepRec (Ev.outcome id att res) x).snd) =
+      (fun r => (stepRec (.outcome id att res) r).2.filterMap answerPairOf) := rfl
+  rw [hcomp, hfs]
+  unfold specOutcomeAnswers knownFor
+  rw [find_known_map]
+  cases hf : s.recs.find? (fun r => r.id == id) with
+  | none => simp
+  | some r =>
+    have hr : r ∈ s.recs := List.mem_of_find?_eq_some hf
+    have hid : r.id = id := by simpa using List.find?_some hf
+    have hi := h.recs r hr
+    simp only [Option.map_some, knownOf, beq_iff_eq, Function.comp]
+    by_cases hp : r.phase = .inflight
+    · have hl := (hi.live (by rw [hp]; simp)).1
+      by_cases ha : r.sends = att
+      · have ha' : (att == r.sends) = true := by simp [ha]
+        by_cases hc : r.closed = true
+        · simp [stepRec, hid, hp, ha, ha', hc, canRetry, finish, answerPairOf]
+        · have hc' : r.closed = false := by simpa using hc
+          by_cases h3 : r.sends = 3
+          · have ht : r.triesLeft = 0 := by omega
+            have hatt : att = 3 := by omega
+            cases res <;>
+              simp [stepRec, hid, hp, ha, hc', canRetry, finish, answerPairOf, resKind, answerOf, kindOfAnswer, ht, hatt]
+          · have ht : ¬ r.triesLeft = 0 := by omega
+            have hatt : ¬ att = 3 := by omega
+            cases res <;>
+              simp [stepRec, hid, hp, ha, hc', canRetry, finish, answerPairOf, resKind, answerOf, kindOfAnswer, ht, hatt]
+      · have ha' : (att == r.sends) = false := by simp; omega
+        simp [stepRec, hid, hp, ha, ha']
+    · have hp' : (r.phase == Phase.inflight) = false := by simpa using hp
+      simp [stepRec, hid, hp, hp']
+
+/-- a new request is answered at once only after stop (cancelled) or when invalid -/
+theorem request_answers_spec (s : State) (v : Bool) :
+    specRequestAnswers s.recs.length s.stopped v ((step s (.request v)).2.filterMap answerPairOf) = true := by
+  obtain ⟨extra, ho, _, hextra⟩ := step_outs s (.request v)
+  simp only at hextra
+  have hnil : ((s.recs.map (fun x => (stepRec (.request v) x).2)).flatten) = [] :=
+    flatten_all_nil _ _ (by intro r _; simp [stepRec])
+  rw [ho, hnil, List.nil_append, hextra]
+  unfold specRequestAnswers newRec finish
+  cases hs : s.stopped <;> cases v <;> simp [answerPairOf, kindOfAnswer]
+
+/-- at stop every answer is `RequestCancelled`; at a scheduling step or when a caller goes away nobody is answered -/
+theorem stop_answers_spec (s : State) :
+    specStopAnswers ((step s .stop).2.filterMap answerPairOf) = true := by
+  obtain ⟨extra, ho, _, hextra⟩ := step_outs s .stop
+  simp only at hextra
+  rw [ho, hextra, List.append_nil]
+  unfold specStopAnswers
+  rw [List.all_eq_true]
+  intro a ha
+  rw [List.mem_filterMap] at ha
+  obtain ⟨o, hom, hoa⟩ := ha
+  rw [List.mem_flatten] at hom
+  obtain ⟨l, hl, hol⟩ := hom
+  rw [List.mem_map] at hl
+  obtain ⟨r, _, rfl⟩ := hl
+  simp only [stepRec, finish] at hol
+  (repeat' split at hol) <;> simp at hol
+  subst hol
+  simp [answerPairOf, kindOfAnswer] at hoa
+  rw [← hoa]
+  rfl
+
+theorem quiet_steps_spec (s : State) (ev : Ev) (hev : (∃ p c, ev = .schedule p c) ∨ (∃ i, ev = .close i)) :
+    specQuietStep ((step s ev).2.filterMap answerPairOf) = true := by
+  obtain ⟨extra, ho, _, hextra⟩ := step_outs s ev
+  have hnil : ((s.recs.map (fun x => (stepRec ev x).2)).flatten).filterMap answerPairOf = [] := by
+    rw [filterMap_flatten', List.map_map]
+    apply flatten_all_nil
+    intro r _
+    rcases hev with ⟨p, c, rfl⟩ | ⟨i, rfl⟩
+    · simp only [Function.comp, stepRec]
+      (repeat' split) <;> simp [answerPairOf]
+    · simp only [Function.comp, stepRec]
+      (repeat' split) <;> simp [answerPairOf]
+  have hex : extra = [] := by
+    rw [hextra]
+    rcases hev with ⟨p, c, rfl⟩ | ⟨i, rfl⟩ <;> rfl
+  rw [ho, hex, List.append_nil, hnil]
+  rfl
 
 end Lumina.Proofs.Retry
